@@ -109,12 +109,28 @@ def theorem_modules(prop):
     return mods
 
 
+def run_translators():
+    """regenerate lean/LazeModel/Generated/*.lean from /repo/src (every run)"""
+    problems = []
+    for t in ("containers.py", "panics.py"):
+        tp = os.path.join(VERIF, "translators", t)
+        if os.path.exists(tp):
+            rc, out = sh([sys.executable, tp], timeout=300)
+            if rc != 0:
+                problems.append(f"translator {t} failed: {out[-500:]}")
+    return problems
+
+
 def build_proofs(prop, extra_modules=()):
     """lake build of the theorem module(s) of `prop` and the driver; forbidden-token scan;
     axiom audit. Returns dict(ok, obligations, discharged, axioms, problems, log)."""
+    tp = run_translators()
     mods = theorem_modules(prop)
     res = {"ok": True, "obligations": 0, "discharged": 0, "axioms": {}, "problems": [], "log": "",
            "theorems": []}
+    if tp:
+        res["ok"] = False
+        res["problems"] += tp
     if not mods:
         res["ok"] = False
         res["problems"].append(f"no theorem module LazeModel/Theorems/{prop}.lean")
